@@ -192,7 +192,7 @@ def generate():
     out = ['(* GENERATED by translate/evaltables.py from mitxgraders/helpers/calc/{mathfuncs,expressions}.py -- do not edit *)',
            'From Coq Require Import ZArith QArith List.',
            'From Verif.Model Require Import Result ParserGrammar.',
-           'Import ListNotations.', 'Open Scope Z_scope.', '',
+           'Import ListNotations.', 'Local Open Scope Z_scope.', '',
            'Definition gen_default_suffixes : list (str * Q) := %s.' % suffix_table(mf, 'DEFAULT_SUFFIXES'),
            'Definition gen_metric_suffixes : list (str * Q) := %s.' % suffix_table(mf, 'METRIC_SUFFIXES'),
            'Definition gen_default_constants : list (str * const_kind) := %s.' % constant_table(mf),
